@@ -221,7 +221,11 @@ def judge(run, cases, model, cres, exe, drv, limit):
                 continue
             if c is None:
                 continue
-            if "crash" in c:
+            if "crash" in c and f == "assert" and G.est_total(desc) < 2 ** 62 and "Assertion `nbs'" not in c["crash"][1]:
+                run.violation("intlv-type-deeper-level-assert", "type-based interleaving naming a level below (wider than) the indexed level computes step = 0: assert(step) aborts in hwloc_topology_set_synthetic",
+                              replay_text(desc, "model: fault=%s\n--- stderr\n%s" % (f, c["crash"][1])))
+                run.cov["traces_validated_against_impl"] += 1
+            elif "crash" in c:
                 run.violation(FAULT_KEYS[f], FAULT_WHAT[f], replay_text(desc, "model: fault=%s\n--- sanitizer\n%s" % (f, c["crash"][1])))
                 run.cov["traces_validated_against_impl"] += 1
             else:
@@ -256,7 +260,7 @@ def judge(run, cases, model, cres, exe, drv, limit):
                 run.bump("drift:duplicate-explicit-indexes-not-compared")
             else:
                 a, b = sorted(c["objs"]), sorted(m["objs"])
-                keys = [tuple(l.split()[i] for i in (1, 4)) for l in b if l.startswith("O ") and 5 <= int(l.split()[1]) <= 12]
+                keys = [(kv["type"], kv["width"]) for kv in (dict(x.split("=", 1) for x in l.split()[2:] if "=" in x) for l in m["L"]) if 5 <= int(kv["type"]) <= 12]
                 if a != b and len(set(keys)) != len(keys):
                     run.violation("merge-equal-cache-size-overwritten", "two cache levels of the same type with identical cpusets are merged by merge_insert_equal(), which overwrites cache.size with the line size (topology.c: old->attr->cache.size = new->attr->cache.linesize)",
                                   replay_text(desc, "impl:\n%s\nmodel:\n%s\n" % ("\n".join(x for x in a if x not in set(b))[:600], "\n".join(x for x in b if x not in set(a))[:600])))
